@@ -456,8 +456,9 @@ def run(frontend, framing, ctx, script, ignore_missing_slaves=False, broadcast_e
         if d is None:
             if frontend == 'sync_tcp':
                 norm.append((c, None, None))
-        elif d or frontend in DATAGRAM:
-            norm.append((c, d, flag))      # a zero-length datagram is a datagram; a zero-length stream read is not
+        elif d or frontend in DATAGRAM or frontend == 'sync_serial':
+            # a zero-length datagram is a datagram; a zero-length read is a read time-out on a serial port, but end-of-stream on a socket
+            norm.append((c, d, flag))
     script = norm
     fc = pm.framer_class(framing)
     flags = {'ignore_missing_slaves': ignore_missing_slaves, 'broadcast_enable': broadcast_enable}
